@@ -74,9 +74,15 @@ func zzWifLen() int {
 func ZZ_C06_strict() {
 	n := zzWifLen()
 	payload := vBytes("payload", n)
-	if !vSymbolic() && n >= 4 {
-		// the solver's checksum is that of the uninterpreted hash: recompute the real one
-		copy(payload[n-4:], zzDsha(payload[:n-4])[:4])
+	if n >= 4 {
+		// the checksum field is expressed as (true checksum) XOR (arbitrary delta): every byte string
+		// is still covered, and a model replays natively although the solver's checksum is that of
+		// the uninterpreted hash (natively the real double-SHA256 is used with the same delta)
+		delta := vBytes("ckdelta", 4)
+		ck := zzDsha(payload[:n-4])[:4]
+		for i := 0; i < 4; i++ {
+			payload[n-4+i] = ck[i] ^ delta[i]
+		}
 	}
 	w, err := zzWifParse(payload)
 	vReach("parsed")
